@@ -1434,8 +1434,8 @@ func main() {
 		"(two states opened on the same head before either stages), on a MuxDB with real caches (TTL 0-32), hist partition factor 1-16, deduped factor 1/4/64/MaxUint32; "+
 		"interleaved reads of every committed root (accounts, storage, metadata, block-number index), restarts, and rounds of the real pruner over aligned "+
 		"[base,target); every 8th case prunes misaligned ranges (informational only); every 8th case is a store-correspondence case (recording engine), which also runs 4-12 rounds "+
-			"of 0-8 random Get/Update/delete operations (keys of 1-3 bytes over a 4-letter alphabet, values of 1-40 bytes) on two extra tries through muxdb.Trie, one hash-skipped, one hashed; "+
-			"non-trivial = has forks, >= 1 prune round, >= 10 blocks",
+		"of 0-8 random Get/Update/delete operations (keys of 1-3 bytes over a 4-letter alphabet, values of 1-40 bytes) on two extra tries through muxdb.Trie, one hash-skipped, one hashed; "+
+		"non-trivial = has forks, >= 1 prune round, >= 10 blocks",
 		[]string{
 			"expected content of a root = the extracted C06 state/trie model on the same operations; root hash = reference MPT hasher",
 			"roots >= target that do not descend from block target-1 (dead forks) are outside the property's prune clause: outcome recorded, not judged",
